@@ -180,7 +180,10 @@ func (fs *Filespace) Writer(destPath string) (writer filesystem.Writer, err erro
 		}
 		file.time = time.Now()
 	}
-	return NewFileHandler(file), nil
+	handler := NewFileHandler(file)
+	// a writer replaces the previous content (the handler holds the data lock)
+	file.data = []byte{}
+	return handler, nil
 }
 
 // Reader return a file node reader
